@@ -1,5 +1,6 @@
 """C10 build_file contract: output appears atomically, failure leaves nothing."""
 import itertools
+import os
 import random
 
 from .common import signature, detail, case_of, account_build
@@ -13,11 +14,11 @@ CONFIG = {
     'budget': {'quick': 40, 'thorough': 600},
     'rule': ('full product, enumerated (split over shards): target depth 1-3 (4 sampled) x prior state of every ancestor '
              '{absent, foreign dir, foreign dir with content, stale created dir, stale dir holding a foreign file, '
-             'foreign file, stale output file, 255-byte name, 256-byte name} x prior state of the target {absent, '
+             'foreign file, stale output file, 255-byte name, 256-byte name, a name with an embedded NUL} x prior state of the target {absent, '
              'foreign file, stale output of another function, cached output of the same function, stale dir, stale dir '
              'with foreign content, foreign dir, 256-byte own name} x failure mode {ok, raise before write, raise after write, no create, '
              'non-JSON return, non-sanitized JSON return} x {caught, uncaught} x an injected OSError at each os.mkdir / '
-             'os.rename the call makes; + nested-call family; + exception-class family (the exception leaving the user function: 16 builtin classes incl. the '
+             'os.rename the call makes; + nested-call family; + hard argument values (nesting 300-950 levels, 200k-element list, 2 MB string: direct assertions of the contract); + exception-class family (the exception leaving the user function: 16 builtin classes incl. the '
              'library\'s own failure vocabulary, and the documented OSError of an uncaught builder query, x before/after the write x caught/propagating x build_file/subbuild: same object out); monitors: path and absence of the target seen by the function, parents present, '
              'identity of the propagated exception, normalised return value, virtual view right after the call '
              '(queries on the target and every ancestor), on-disk tree at the end of the build, rollback state if '
@@ -25,11 +26,11 @@ CONFIG = {
              'build_file calls judged; distinct_nontrivial = distinct (ancestor states, target state, mode, caught, '
              'fault position class)'),
     'exhaustive_layer': 'depth<=3 product of ancestor states x target states x modes x caught, incl. one fault run per mkdir/rename event',
-    'gates': ['prefix_sibling_combos', 'exc_class_cases', 'nested_cases', 'mode:swallow', 'combos', 'fault_runs', 'fault_mkdir', 'fault_rename', 'mode:ok', 'mode:raise_before',
+    'gates': ['deep_value_cases', 'prefix_sibling_combos', 'exc_class_cases', 'nested_cases', 'mode:swallow', 'combos', 'fault_runs', 'fault_mkdir', 'fault_rename', 'mode:ok', 'mode:raise_before',
               'mode:raise_after', 'mode:nocreate', 'mode:nonjson', 'setup_failures', 'caught', 'uncaught'],
 }
 
-ANC = ['absent', 'fdir', 'fdirc', 'sdir', 'sdirf', 'ffile', 'sfile', 'n255', 'n256']
+ANC = ['absent', 'fdir', 'fdirc', 'sdir', 'sdirf', 'ffile', 'sfile', 'n255', 'n256', 'nul']
 TGT = ['absent', 'ffile', 'sfile_other', 'sfile_same', 'sdir', 'sdirf', 'fdir', 'n256name']
 MODES = ['ok', 'raise_before', 'raise_after', 'nocreate', 'nonjson', 'tuple', 'swallow']
 KINDS = {'result', 'tree', 'query', 'issue', 'rollback_tree', 'exception_identity_root', 'tmp_leftover',
@@ -46,8 +47,14 @@ def anc_vectors(depth):
         if len(prefix) == depth - 1:
             out.append(tuple(prefix))
             return
-        if prefix and prefix[-1] in ('absent', 'n255', 'n256', 'ffile', 'sfile'):
-            # nothing can exist below an absent entry or a file
+        if prefix and prefix[-1] in ('absent', 'n255'):
+            # nothing exists below an absent entry; the NAME of the next level may still be one that can
+            # (255 bytes) or cannot (256 bytes, embedded NUL) be created
+            for s in ('absent', 'n255', 'n256', 'nul'):
+                rec(prefix + [s])
+            return
+        if prefix and prefix[-1] in ('n256', 'nul', 'ffile', 'sfile'):
+            # nothing can exist or be created below a file or an impossible name
             rec(prefix + ['absent'])
             return
         for s in ANC:
@@ -61,6 +68,8 @@ def name_for(state, i):
         return 'x' * 255
     if state == 'n256':
         return 'y' * 256
+    if state == 'nul':
+        return 'n\0x'       # a name the OS layer cannot represent: os.mkdir raises ValueError, not OSError
     return 'abc'[i % 3]
 
 
@@ -90,7 +99,7 @@ def build_case(anc, tgt, mode, catch, sibling=False):
             pre.append(('w', p))
         elif s == 'sfile':
             prior.append(['bf', p, 'G', {'catch': False}])
-    parent_blocked = any(s in ('absent', 'n255', 'n256', 'ffile', 'sfile') for s in anc)
+    parent_blocked = any(s in ('absent', 'n255', 'n256', 'nul', 'ffile', 'sfile') for s in anc)
     if not parent_blocked:
         if tgt == 'ffile':
             post.append(('w', target))
@@ -118,6 +127,9 @@ def build_case(anc, tgt, mode, catch, sibling=False):
     for p in paths:
         probes += [['q', 'is_dir', p, 'M'], ['q', 'exists', p, 'M'], ['q', 'list_dir', p, 'M']]
     probes += [['q', 'walk', '', 'M']]
+    # what list_dir/read answer for a path the OS layer cannot represent is not specified (ValueError from
+    # whichever os function meets it): only the boolean queries are made on such paths
+    probes = [q for q in probes if '\0' not in q[2] or q[1] in ('exists', 'is_file', 'is_dir')]
     main = [['q', 'exists', target, 'M'], ['bf', target, 'F', {'catch': catch}]] + probes
     if sibling and comps and len(comps[0]) < 200:
         keep = ['bf', comps[0] + '.old/keep', 'G', {'catch': False}]
@@ -298,10 +310,112 @@ def exc_class_cases(sh, rng):
                                 break
 
 
+def deep_value_cases(sh):
+    """arguments that are valid JSON but hard to handle: nested 300-950 levels deep (copy.deepcopy and
+    json have different recursion budgets), very long lists, long strings.  Whatever the call does - return
+    or raise, before or after entering the function - the contract holds: a call that raised left no target
+    and none of the directories it created (in the view at once, on disk at the end of the build), the build
+    itself commits, an unchanged rebuild and clean behave.  Direct assertions on the real library (the
+    interpreter and the model are not built for such values)."""
+    from ..env import FileBuilder
+    import sys
+
+    def nest_list(n):
+        v = []
+        for _ in range(n):
+            v = [v]
+        return v
+
+    def nest_dict(n):
+        v = {}
+        for _ in range(n):
+            v = {'k': v}
+        return v
+    values = [('list%d' % n, nest_list(n)) for n in (300, 500, 600, 800, 950)] + \
+        [('dict%d' % n, nest_dict(n)) for n in (300, 600, 900)] + \
+        [('long-list', list(range(200000))), ('long-str', 'x' * 2000000)]
+    for label, val in values:
+        for as_kw in (False, True):
+            for prior_state in ('absent', 'stale-output'):
+                with Scratch('D') as sc:
+                    sb = sc.sb
+                    cache = os.path.join(sb, 'cache.gz')
+                    target = os.path.join(sb, 'gen', 'sub', 't')
+                    other = os.path.join(sb, 'out', 'ok')
+                    seen = {}
+
+                    def fn(b, filename, *a, **k):
+                        seen['entered'] = seen.get('entered', 0) + 1
+                        env.write_file(filename, b'built')
+                        return None
+
+                    def fn_other(b, filename):
+                        env.write_file(filename, b'other')
+                        return 1
+
+                    def root(b):
+                        seen.clear()
+                        try:
+                            if as_kw:
+                                b.build_file(target, 'F', fn, opt=val)
+                            else:
+                                b.build_file(target, 'F', fn, val)
+                            seen['outcome'] = 'returned'
+                        except Exception as e:      # noqa
+                            seen['outcome'] = 'raised:' + type(e).__name__
+                        seen['view'] = (b.exists(target), b.is_dir(os.path.join(sb, 'gen', 'sub')),
+                                        b.is_dir(os.path.join(sb, 'gen')))
+                        b.build_file(other, 'G', fn_other)
+                        return seen['outcome']
+
+                    def plain_root(b):
+                        b.build_file(target, 'F', fn)
+                        b.build_file(other, 'G', fn_other)
+                    problems = []
+                    try:
+                        if prior_state == 'stale-output':
+                            FileBuilder.build(cache, 'n', plain_root)
+                        for rnd in (1, 2):
+                            try:
+                                FileBuilder.build(cache, 'n', root)
+                            except Exception as e:  # noqa
+                                problems.append('build %d failed as a whole: %s' % (rnd, type(e).__name__))
+                                break
+                            raised = seen.get('outcome', '').startswith('raised')
+                            if raised and seen.get('view') != (False, False, False):
+                                problems.append('build %d: view after the failed call (exists(target), is_dir(sub), '
+                                                'is_dir(gen)) = %r' % (rnd, seen.get('view')))
+                            if not raised and seen.get('view') != (True, True, True):
+                                problems.append('build %d: view after the successful call = %r' % (rnd, seen.get('view')))
+                            disk = (os.path.lexists(target), os.path.isdir(os.path.dirname(target)),
+                                    os.path.isdir(os.path.join(sb, 'gen')))
+                            if raised and disk != (False, False, False):
+                                problems.append('build %d: on disk after the build %r' % (rnd, disk))
+                            if not os.path.isfile(other):
+                                problems.append('build %d: the unrelated output is missing' % rnd)
+                        FileBuilder.clean(cache, 'n')
+                        left = sorted(os.listdir(sb))
+                        if left:
+                            problems.append('clean left %r' % (left[:4],))
+                    except RecursionError:
+                        problems.append('harness recursion (inconclusive)')
+                    sh.evaluations += 1
+                    sh.count('deep_value_cases')
+                    sh.nt(('deep', label, as_kw, prior_state, seen.get('outcome')))
+                    real = [p for p in problems if 'inconclusive' not in p]
+                    if real:
+                        sh.violation('hard_argument_value|%s|%s' % (label.rstrip('0123456789'), real[0].split(':')[0][:40]),
+                                     {'value': label, 'keyword': as_kw, 'prior': prior_state, 'problems': real[:4],
+                                      'outcome': seen.get('outcome')},
+                                     {'kind': 'c10-deep-value', 'value': label, 'keyword': as_kw, 'prior': prior_state})
+
+
 def run_shard(sh):
     rng = random.Random((sh.seed * 1000003 + sh.idx) & 0xffffffff)
     if sh.idx % 4 == 1:
         nested_cases(sh, rng)
+    if sh.idx % 8 == 3:
+        deep_value_cases(sh)
     if sh.idx % 4 == 2:
         exc_class_cases(sh, rng)
     combos = []
